@@ -1132,9 +1132,7 @@ class Envelope:
                 self.fock.dimensions = new_dimensions
                 return True
             if new_dimensions < self.fock.dimensions:
-                to = self.trace_out(self.fock)
-                assert isinstance(to, jnp.ndarray)
-                num_quanta = num_quanta_vector(to)
+                num_quanta = self.fock._num_quanta
                 if num_quanta >= new_dimensions:
                     # Cannot hrink because amplitues exist beyond new_dimensions
                     return False
